@@ -119,6 +119,13 @@ Definition instant_ns (y m d h mi s f : Z) (o : option Z) : Z :=
 Definition time_ns (h mi s f : Z) (o : option Z) : Z :=
   ((h * 3600 + mi * 60 + s) - off0 o * 60) * 1000000000 + f.
 
+(* the same timeline in microseconds, for an object given by calendar fields with microsecond
+   precision (what the standard library's datetime holds) *)
+Definition instant_us (y m d h mi s us : Z) (o : option Z) : Z :=
+  ((days_from_civil y m d * 86400 + h * 3600 + mi * 60 + s) - off0 o * 60) * 1000000 + us.
+Definition time_us (h mi s us : Z) (o : option Z) : Z :=
+  ((h * 3600 + mi * 60 + s) - off0 o * 60) * 1000000 + us.
+
 (* ---- xs:duration ------------------------------------------------------- *)
 (* durationLexicalRep ::= '-'? 'P' ((duYearMonthFrag duDayTimeFrag?) | duDayTimeFrag)
    given generatively: each component is an optional non-empty digit string; the seconds
